@@ -106,6 +106,8 @@ pub struct Case {
     /// drop and re-create the `next()` future at every suspension
     pub cancel_next: bool,
     pub pendings: usize,
+    /// what happened on the connection before the chain (see `vnet::warm_up_kind`; 0 = nothing)
+    pub history: u8,
 }
 
 impl Case {
@@ -114,7 +116,7 @@ impl Case {
             "kinds": self.kinds.iter().map(|k| match k { Kind::Plain => "plain", Kind::Oneway => "oneway", Kind::More => "more" }).collect::<Vec<_>>(),
             "replies": self.replies.iter().map(|r| json!([r.tag, r.is_error, r.continues, r.pad])).collect::<Vec<_>>(),
             "trailing": self.trailing.iter().map(|r| json!([r.tag, r.is_error, r.continues, r.pad])).collect::<Vec<_>>(),
-            "cuts": self.cuts, "trailing_later": self.trailing_later, "cancel_next": self.cancel_next, "pendings": self.pendings})
+            "cuts": self.cuts, "trailing_later": self.trailing_later, "cancel_next": self.cancel_next, "pendings": self.pendings, "history": self.history})
     }
     pub fn from_replay(r: &Value) -> Case {
         let reps = |v: &Value| -> Vec<Rep> {
@@ -128,6 +130,7 @@ impl Case {
             trailing_later: r["trailing_later"].as_bool().unwrap(),
             cancel_next: r["cancel_next"].as_bool().unwrap_or(false),
             pendings: r["pendings"].as_u64().unwrap_or(0) as usize,
+            history: r["history"].as_u64().unwrap_or(0) as u8,
         }
     }
     fn hash(&self) -> u64 {
@@ -138,7 +141,7 @@ impl Case {
         for c in &self.cuts {
             h = fnv_mix(h, *c as u64);
         }
-        fnv_mix(h, self.trailing_later as u64 * 4 + self.cancel_next as u64 * 2 + self.pendings as u64 * 8)
+        fnv_mix(h, self.trailing_later as u64 * 4 + self.cancel_next as u64 * 2 + self.pendings as u64 * 8 + self.history as u64 * 64)
     }
 }
 
@@ -165,6 +168,8 @@ pub struct Outcome {
 
 pub fn execute(case: &Case) -> Outcome {
     let wire = new_wire(0);
+    let mut conn = Connection::new(VSocket(wire.clone()));
+    vnet::warm_up_kind(&mut conn, &wire, case.history);
     let owed: Vec<u8> = case.replies.iter().flat_map(|r| r.bytes()).collect();
     let trailing: Vec<u8> = case.trailing.iter().flat_map(|r| r.bytes()).collect();
     {
@@ -181,7 +186,6 @@ pub fn execute(case: &Case) -> Outcome {
         }
     }
     let mut out = Outcome::default();
-    let mut conn = Connection::new(VSocket(wire.clone()));
     {
         let mut chain = conn
             .chain_call::<MC, Tagged, EC>(&call_for(case.kinds[0], 0))
@@ -399,7 +403,10 @@ pub fn run(cfg: &Cfg) -> Report {
                             continue;
                         }
                         // with trailing frames in the same burst only cut inside the owed part
-                        let case = Case { kinds: kinds.clone(), replies: replies.clone(), trailing: trailing.clone(), cuts: cuts.clone(), trailing_later, cancel_next: v % 3 == 2, pendings: if v % 3 == 2 { 1 } else { 0 } };
+                        let case = Case { kinds: kinds.clone(), replies: replies.clone(), trailing: trailing.clone(), cuts: cuts.clone(), trailing_later, cancel_next: v % 3 == 2, pendings: if v % 3 == 2 { 1 } else { 0 }, history: if rng.chance(1, 2) { 0 } else { rng.range(1, 7) as u8 } };
+                        if case.history > 0 {
+                            rep.count("chains_on_a_connection_with_history");
+                        }
                         check(&case, &mut rep);
                     }
                 }
